@@ -1,4 +1,4 @@
-//go:build verif && !verifint
+//go:build verif && !vi_serviceaccount_c31
 
 package service_account
 
